@@ -36,11 +36,20 @@ func Hex(b []byte) string { return hex.EncodeToString(b) }
 // Encode renders a value.  Unknown object kinds are opaque (type name + identity).
 func Encode(o ugo.Object, ids *Ids) string {
 	var sb strings.Builder
-	enc(&sb, o, ids)
+	enc(&sb, o, ids, 0)
 	return sb.String()
 }
 
-func enc(sb *strings.Builder, o ugo.Object, ids *Ids) {
+// maxDepth bounds the rendering of nested values: a script can build a cyclic map or
+// array (m.x = m); at this depth the value is rendered as the opaque `odeep:0`, like the
+// model driver's imageOf (fuel 64).
+const maxDepth = 64
+
+func enc(sb *strings.Builder, o ugo.Object, ids *Ids, depth int) {
+	if depth >= maxDepth {
+		sb.WriteString("odeep:0")
+		return
+	}
 	switch v := o.(type) {
 	case nil:
 		sb.WriteString("onil:0")
@@ -74,7 +83,7 @@ func enc(sb *strings.Builder, o ugo.Object, ids *Ids) {
 			if i > 0 {
 				sb.WriteByte(' ')
 			}
-			enc(sb, x, ids)
+			enc(sb, x, ids, depth+1)
 		}
 		sb.WriteString(")")
 	case ugo.Map:
@@ -89,7 +98,7 @@ func enc(sb *strings.Builder, o ugo.Object, ids *Ids) {
 				sb.WriteByte(' ')
 			}
 			sb.WriteString(Hex([]byte(k)) + "=")
-			enc(sb, v[k], ids)
+			enc(sb, v[k], ids, depth+1)
 		}
 		sb.WriteString(")")
 	default:
